@@ -766,6 +766,8 @@ def run_stream(chk, label, bins, tag, drv, cases, kthr, sthr, stats):
     """run implementation (one binary per field) and model on the cases, three-way compare"""
     if not cases:
         return
+    import time
+    t0 = time.time()
     iout = [None] * len(cases)
     crashed_all = []
     byfield = {}
@@ -793,6 +795,7 @@ def run_stream(chk, label, bins, tag, drv, cases, kthr, sthr, stats):
                 iout[i] = outs[j]
             for j, rc in crashed:
                 crashed_all.append((byfield[fk][j], rc))
+    t1 = time.time()
     # model
     mout = None
     midx = [i for i, c in enumerate(cases) if c[1] not in NO_MODEL]
@@ -803,6 +806,7 @@ def run_stream(chk, label, bins, tag, drv, cases, kthr, sthr, stats):
             chk.broke("%s: model driver failed (rc=%s, %d/%d lines)" % (label, rc, len(mo), len(midx)), merr)
         else:
             mout = dict(zip(midx, mo))
+    t2 = time.time()
     crashed_set = dict(crashed_all)
     for i, (v, op, fk, p, a) in enumerate(cases):
         key = (v, fk, p, tok_args(op, a))
@@ -852,6 +856,7 @@ def run_stream(chk, label, bins, tag, drv, cases, kthr, sthr, stats):
                           % (label, v, fk, p, kthr, sthr, tok_args(op, a)[:1500], mout[i][:1500], iout[i][:1500]))
         elif op in NO_MODEL:
             stats["oracle_only"] += 1
+    vf.log("C08 %s: %d cases, impl %.1fs, model %.1fs, oracle %.1fs" % (label, len(cases), t1 - t0, t2 - t1, time.time() - t2))
 
 
 def main(tier, replay=None):
